@@ -274,8 +274,9 @@ Section SimpleSlice.
     (* phase 1 *)
     destruct (miter_parent_spec x vals h NIv) as (h1 & E1 & LH1 & O1 & V1).
     assert (Gx1 : get h1 x = Some nx) by (destruct LH1 as (_ & Ex & _); congruence).
-    unfold node_setitem_slice. rewrite (bind_R _ _ _ _ _ E1). rewrite (bind_getn x nx _ h1 Gx1).
-    fold cs. fold len. rewrite SI. change (1 =? 1)%Z with true. cbv iota.
+    unfold node_setitem_slice. rewrite (bind_getn x nx _ h Gx).
+    fold cs. fold len. rewrite SI. change (1 =? 1)%Z with true. cbn [negb andb]. cbv iota.
+    rewrite (bind_R _ _ _ _ _ E1).
     fold sn. fold en. rewrite EA, EB, ERm. fold new.
     rewrite bind_modn. set (h2 := upd h1 x (set_children new)).
     assert (Gx2 : get h2 x = Some (set_children new nx)) by (unfold h2; now apply get_upd_same).
